@@ -143,6 +143,9 @@ def check_roundtrip(run, e: E, m, envs, stats) -> None:
     run.add(core.Case("C07.reparse", "m.expr\t" + mk.leaf_tokens(text), enc_marker(back) + "\t" + str(back)))
     # the token list packaging reads from the text vs the list the model says the text denotes
     run.add(core.Case("C07.tokens", "m.tokens\t" + e.tokens(), mk.enc_ast(PkgMarker(text)._markers), True, ctx=e))
+    # ... and the CHARACTERS of the text through the model of packaging's parser (`MText.readFullMarker`)
+    if text.isascii():
+        run.add(core.Case("C07.text", "q.marker\t" + enc(text), "ok\t" + mk.enc_ast(PkgMarker(text)._markers), True))
     for env in envs:
         stats["oracle"] += 1
         if ev(back, env) != ev(m, env):
